@@ -281,7 +281,54 @@ def rule_e(ctx):
         raise AnchorLost("publishing mutators found: %d" % n)
 
 
+def rule_f(ctx):
+    """one registry operation = one published state: a public mutator publishes the snapshot at most once per call, never in a loop —
+    otherwise a delivery can observe a state that is 'current' at no instant of the abstract history"""
+    F = ctx.F
+    rid = "C02.f"
+    ctx.rule(rid, "every public mutator of the registry publishes the data snapshot at most once per call (no publish inside a loop, no second "
+                  "publish reachable after the first), directly or through callees", floor=3)
+    stores = {i.id for i in F.inst if i.name == "signal_hook_registry::half_lock::WriteGuard::<'_, %s>::store" % DATA_T}
+    if not stores:
+        raise AnchorLost("publishing store")
+    pubs_memo = {}
+
+    def publishes(fid):
+        if fid not in pubs_memo:
+            pubs_memo[fid] = fid in stores or bool(set(F.reach([F.inst[fid]], stop=lambda x: x.id in stores and x.id != fid)) & stores)
+        return pubs_memo[fid]
+    n = 0
+    for c, fn in F.crate_items("fns"):
+        if c != "signal_hook_registry" or not fn["pub"] or fn["kind"] != "Fn":
+            continue
+        for m in [i for i in F.inst if i.defp == fn["path"] and i.body is not None]:
+            # walk down through workspace frames until the frames that contain publish sites
+            frames = [m] + [F.inst[x] for x in F.reach([m], stop=lambda x: x.id in stores) if F.inst[x].local and F.inst[x].body is not None and x != m.id and F.inst[x].crate == "signal_hook_registry"]
+            bad = []
+            any_pub = False
+            for f in frames:
+                sites_ = [bb for bb, t in f.calls() if t.get("f") is not None and publishes(t["f"])]
+                if not sites_:
+                    continue
+                any_pub = True
+                from .util import at_most_once
+                ok1, why = at_most_once(f, sites_)
+                if not ok1:
+                    bad.append({"in": f.name, "why": why, "sites": [f.term(b)["sp"] for b in sites_]})
+                for b in sites_:
+                    cal = F.inst[f.term(b)["f"]]
+                    if not cal.local and re.search(r"core::iter::|::slice::iter::|alloc::vec::into_iter::", cal.defp):
+                        bad.append({"in": f.name, "why": "publish reachable through the iterator adapter `%s` (runs once per element)" % cal.defp.split("::")[-1],
+                                    "sites": [f.term(b)["sp"]]})
+            if any_pub:
+                n += 1
+                ctx.check(not bad, rid, "one-publish@%s" % keyname(m.name), "%s publishes at most one snapshot per call" % fn["path"].split("::")[-1], m.span, bad)
+    if n < 3:
+        raise AnchorLost("public publishing mutators: %d" % n)
+
+
 def run(ctx):
+    ctx.guarded("C02.f", rule_f)
     ctx.guarded("C02.e", rule_e)
     ctx.guarded("C02.a", rule_a)
     ctx.guarded("C02.b", rule_b)
